@@ -1,12 +1,13 @@
 """C14 - Every writer receives every line, once, in order, byte for byte (E1)."""
 
+import contextlib
 import os
 import shutil
 import tempfile
 
 from ._base import run_configs, replay_history
 from ..harness import Recorder
-from ..common import import_gscrib, digest
+from ..common import import_gscrib, digest, debug_logging
 
 import_gscrib()
 from gscrib import GCodeBuilder                # noqa: E402
@@ -111,41 +112,42 @@ class C14System:
         name = op[0]
         exc = None
         try:
-            if name == "add_writer":
-                g.add_writer(st.writers[op[1][0]])
-                if op[1][0] not in st.registry:
-                    st.registry.append(op[1][0])
-            elif name == "remove_writer":
-                g.remove_writer(st.writers[op[1][0]])
-                if op[1][0] in st.registry:
-                    st.registry.remove(op[1][0])
-            elif name == "emit":
-                fn, text = EMITS[op[1][0]]
-                line = text.encode("utf-8") + st.end
-                for n in st.registry:
-                    st.log[n] += line
-                    if st.kind[n] == "path":
-                        if not st.open[n]:
-                            st.session[n], st.open[n] = b"", True
-                        st.session[n] += line
-                st.emits += 1
-                fn(g)
-            elif name == "flush":
-                g.flush()
-            elif name == "teardown":
-                if len(op) > 1:
-                    g.teardown(*op[1])
-                else:
-                    g.teardown()
-            elif name == "set_formatter":
-                from gscrib.formatters import DefaultFormatter
-                fmt = DefaultFormatter()
-                fmt.set_line_endings(op[1][0])
-                g.set_formatter(fmt)
-                st.end = op[1][0].encode().decode("unicode-escape").encode("utf-8")
-            elif name == "set_line_endings":
-                g.format.set_line_endings(op[1][0])
-                st.end = op[1][0].encode().decode("unicode-escape").encode("utf-8")
+          with (debug_logging() if getattr(self, "debug_log", False) else contextlib.nullcontext()):
+              if name == "add_writer":
+                  g.add_writer(st.writers[op[1][0]])
+                  if op[1][0] not in st.registry:
+                      st.registry.append(op[1][0])
+              elif name == "remove_writer":
+                  g.remove_writer(st.writers[op[1][0]])
+                  if op[1][0] in st.registry:
+                      st.registry.remove(op[1][0])
+              elif name == "emit":
+                  fn, text = EMITS[op[1][0]]
+                  line = text.encode("utf-8") + st.end
+                  for n in st.registry:
+                      st.log[n] += line
+                      if st.kind[n] == "path":
+                          if not st.open[n]:
+                              st.session[n], st.open[n] = b"", True
+                          st.session[n] += line
+                  st.emits += 1
+                  fn(g)
+              elif name == "flush":
+                  g.flush()
+              elif name == "teardown":
+                  if len(op) > 1:
+                      g.teardown(*op[1])
+                  else:
+                      g.teardown()
+              elif name == "set_formatter":
+                  from gscrib.formatters import DefaultFormatter
+                  fmt = DefaultFormatter()
+                  fmt.set_line_endings(op[1][0])
+                  g.set_formatter(fmt)
+                  st.end = op[1][0].encode().decode("unicode-escape").encode("utf-8")
+              elif name == "set_line_endings":
+                  g.format.set_line_endings(op[1][0])
+                  st.end = op[1][0].encode().decode("unicode-escape").encode("utf-8")
         except Exception as e:   # noqa: BLE001
             exc = e
         st.last_exc, st.last_rejected = exc, exc is not None
@@ -231,14 +233,19 @@ ASSUMPTIONS = ["not demanded: that teardown pushes a caller-owned buffered file 
                "nothing is demanded about writers removed before flush/teardown; one FileWriter per path"]
 
 
+def debug(system):
+    system.debug_log = True
+    return system
+
+
 def systems(tier):
     if tier == "quick":
         return [("lf-4writers", C14System(["pathA", "text", "rec1", "rec2"], "\\n", 2), 5, None),
-                ("crlf-3writers", C14System(["rec1", "pathA", "binary"], "\\r\\n", 2), 5, None),
+                ("crlf-3writers-debug-logging", debug(C14System(["rec1", "pathA", "binary"], "\\r\\n", 2)), 5, None),
                 ("output-option", C14System(["cfgpath", "rec1", "codecs"], "\\n", 2), 4, None),
                 ("formatter-replaced", C14System(["rec1", "pathA"], "\\n", 2, formatters=True), 4, None)]
     return [("lf-5writers", C14System(["pathA", "pathB", "text", "rec1", "rec2"], "\\n", 3), 6, None),
-            ("crlf-4writers", C14System(["rec1", "pathA", "binary", "text"], "\\r\\n", 3), 7, None),
+            ("crlf-4writers-debug-logging", debug(C14System(["rec1", "pathA", "binary", "text"], "\\r\\n", 3)), 7, None),
             ("output-option", C14System(["cfgpath", "rec1", "pathA", "codecs"], "\\n", 3), 6, None),
             ("formatter-replaced", C14System(["rec1", "pathA", "text"], "\\n", 3, formatters=True), 5, None)]
 
